@@ -358,6 +358,14 @@ rp_alloc_cb(void *drv, void **m, size_t n)
     return 0;
 }
 
+/* the same allocator in slab form (the block size is the allocator's, not an argument) */
+static int
+rp_slab_alloc_cb(void *drv, void **m)
+{
+    struct rp_h *h = drv;
+    return rp_alloc_cb(drv, m, h->blocksize);
+}
+
 static void
 rp_free_cb(void *drv, void *m)
 {
@@ -516,6 +524,7 @@ static RPBlockAccess rp_w16(uint32_t a, size_t n, const uint16_t *b) { return rp
 static RPBlockAccess rp_r8(uint32_t a, size_t n, uint8_t *b) { return rp_be(0, 1, a, n, b, NULL); }
 static RPBlockAccess rp_w8(uint32_t a, size_t n, const uint8_t *b) { return rp_be(1, 1, a, n, NULL, b); }
 
+static unsigned rp_setup_toggle;
 static size_t rp_next_window; /* set before rp_setup() to get a getbuffer source with that window size */
 
 static void
@@ -534,7 +543,11 @@ rp_setup(struct rp_h *h, int serial, int mem16, size_t blocksize)
     h->blocksize = blocksize;
     h->fail_alloc_at = -1;
     h->in_fail_at = SIZE_MAX;
-    h->alloc = (BlockAllocator)MAKE_GENERIC_BLOCKALLOC(h, rp_alloc_cb, rp_free_cb, blocksize);
+    /* every second instance uses a slab-type allocator */
+    if ((rp_setup_toggle++ + vh_unit_salt) & 1u)
+        h->alloc = (BlockAllocator)MAKE_SLAB_BLOCKALLOC(h, rp_slab_alloc_cb, rp_free_cb, blocksize);
+    else
+        h->alloc = (BlockAllocator)MAKE_GENERIC_BLOCKALLOC(h, rp_alloc_cb, rp_free_cb, blocksize);
     regp_init(&h->p);
     if (mem16)
         regp_use_memory16(&h->p, rp_r16, rp_w16);
